@@ -9,8 +9,8 @@ use async_graphql_parser::types::ExecutableDocument;
 use futures_util::stream::{self, BoxStream, FuturesOrdered, StreamExt};
 
 use crate::{
-    BatchRequest, BatchResponse, CacheControl, ContextBase, EmptyMutation, EmptySubscription,
-    Executor, InputType, ObjectType, OutputType, QueryEnv, Request, Response, ServerError,
+    BatchRequest, BatchResponse, CacheControl, ContextBase, EmptySubscription, Executor,
+    InputType, ObjectType, OutputType, QueryEnv, Request, Response, ServerError,
     ServerResult, SubscriptionType, Variables,
     context::{Data, QueryEnvInner},
     custom_directive::CustomDirectiveFactory,
@@ -28,6 +28,38 @@ use crate::{
     types::QueryRoot,
     validation::{ValidationMode, check_rules},
 };
+
+/// Stands in for the mutation root while only introspection is allowed: it keeps the root's
+/// type name (`__typename`, fragment type conditions) but resolves no field.
+struct IntrospectionOnlyRoot<T>(std::marker::PhantomData<T>);
+
+#[cfg_attr(feature = "boxed-trait", async_trait::async_trait)]
+impl<T: ObjectType> crate::resolver_utils::ContainerType for IntrospectionOnlyRoot<T> {
+    async fn resolve_field(&self, _ctx: &crate::Context<'_>) -> ServerResult<Option<crate::Value>> {
+        Ok(None)
+    }
+}
+
+#[cfg_attr(feature = "boxed-trait", async_trait::async_trait)]
+impl<T: ObjectType> OutputType for IntrospectionOnlyRoot<T> {
+    fn type_name() -> std::borrow::Cow<'static, str> {
+        T::type_name()
+    }
+
+    fn create_type_info(registry: &mut Registry) -> String {
+        T::create_type_info(registry)
+    }
+
+    async fn resolve(
+        &self,
+        ctx: &crate::ContextSelectionSet<'_>,
+        _field: &Positioned<crate::parser::types::Field>,
+    ) -> ServerResult<crate::Value> {
+        resolve_container_serial(ctx, self).await
+    }
+}
+
+impl<T: ObjectType> ObjectType for IntrospectionOnlyRoot<T> {}
 
 /// Introspection mode
 #[derive(Debug, Copy, Clone, PartialEq, Eq, Default)]
@@ -495,7 +527,8 @@ where
                 if self.0.env.registry.introspection_mode == IntrospectionMode::IntrospectionOnly
                     || env.introspection_mode == IntrospectionMode::IntrospectionOnly
                 {
-                    resolve_container_serial(&ctx, &EmptyMutation).await
+                    let root = IntrospectionOnlyRoot::<Mutation>(std::marker::PhantomData);
+                    resolve_container_serial(&ctx, &root).await
                 } else {
                     resolve_container_serial(&ctx, &self.0.mutation).await
                 }
